@@ -1,0 +1,10 @@
+//go:build !verif
+
+// Package verifhook provides scheduling points for the external
+// verification harness. Without the "verif" build tag every function
+// is an empty, inlinable no-op.
+package verifhook
+
+// Yield marks a point, outside any critical section, at which the
+// verification harness may reschedule goroutines. No-op in this build.
+func Yield(string) {}
